@@ -107,6 +107,56 @@ def check_dual(cfg, acc):
             if n == cfg["max_len"] or n <= 2:
                 finals[seq] = state["smoothed_log_step_size"]
             acc.outcome(("dual", target, reg_coeff, decay, offset, round(want, 12)))
+    # one adapter object shared by several chains / re-initialised for a later stage (what
+    # sample_chains does): each chain's iterates follow the recursion with ITS OWN initial step
+    # size in the default regularisation target; interleaving of the chains' updates is free
+    from mici.states import ChainState
+    TABLES = {"2": lambda k: "small" if k < 1 else "large",
+              "1/4": lambda k: "small" if k < -2 else "large",
+              "8": lambda k: "small" if k < 3 else "large"}
+    for names in itertools.chain(itertools.permutations(TABLES, 2),
+                                 itertools.permutations(TABLES, 3), [("2", "2")]):
+        for seq in itertools.product(ACC_ALPHA, repeat=min(3, cfg["max_len"])):
+            for order in ("round_robin", "chain_by_chain"):
+                acc.count("evaluations")
+                ad = A.DualAveragingStepSizeAdapter(
+                    adapt_stat_target=target, log_step_size_reg_target=reg_target,
+                    log_step_size_reg_coefficient=reg_coeff, iter_decay_coeff=decay,
+                    iter_offset=offset)
+                trs, sts, inits = [], [], []
+                for nm in names:
+                    integ = TableIntegrator(TABLES[nm])
+                    tr = StubTransition(integ, TableSystem(TABLES[nm]))
+                    sts.append(ad.initialize(
+                        ChainState(pos=np.zeros(1), mom=np.zeros(1), dir=1, tag=None), tr))
+                    trs.append(tr)
+                    inits.append(integ.step_size)
+                refs = [ref_dual_averaging(
+                    seq, target, math.log(10 * e0) if reg_target is None else reg_target,
+                    reg_coeff, decay, offset) for e0 in inits]
+                sched = [(c, i) for i in range(len(seq)) for c in range(len(names))] \
+                    if order == "round_robin" else \
+                    [(c, i) for c in range(len(names)) for i in range(len(seq))]
+                bad = False
+                for c, i in sched:
+                    ad.update(sts[c], None, {"accept_stat": seq[i]}, trs[c])
+                    got, want = trs[c].integrator.step_size, refs[c][0][i]
+                    if not (got > 0 and math.isfinite(got)) or abs(got - want) > 1e-12 * want:
+                        viol("shared_adapter_chain_does_not_follow_its_own_recursion", got, want,
+                             chains=list(names), initial_step_sizes=inits, seq=list(seq),
+                             chain=c, i=i, order=order)
+                        bad = True
+                        break
+                if bad:
+                    return
+                ad.finalize(sts, None, trs[0], None)
+                want = sum(math.exp(r[1]) for r in refs) / len(refs)
+                if abs(trs[0].integrator.step_size - want) > 1e-12 * want:
+                    viol("shared_adapter_finalize", trs[0].integrator.step_size, want,
+                         chains=list(names), seq=list(seq), order=order)
+                    return
+                acc.outcome(("dual_shared", names, target, reg_coeff, decay, offset,
+                             round(want, 12)))
     # reducers across 1..3 chains
     keys = sorted(finals)[:: max(1, len(finals) // 40)]
     vals = [finals[k] for k in keys]
